@@ -197,7 +197,8 @@ def _case(i):
     elif rng.random() < 0.15:
         # a ♡ evaluated before any jump of this program: must do nothing in a fresh (or cleared) state
         name = 'early_heart'
-        prog = [(0, 1, rng.randint(0, 3), None) for _ in range(rng.randint(1, 4))]
+        # (sometimes further down than any jump source an earlier, cleared program can have left behind)
+        prog = [(0, 1, rng.randint(0, 3), None) for _ in range(rng.choice([1, 2, 3, 4, 6, 9, 14, 20]))]
         prog += [(rng.choice([0, 1]), 1, rng.choice([1, 3]), rng.choice([13, ('?', 13, None), ('?', None, 13), ('!', 13, 13)]))]
         prog += gen.print_chars([rng.choice([65, 66, 67])], 3, rng.choice([1, 2])) + gen.gen_random(rng, False, 1, 4)
     else:
